@@ -209,24 +209,25 @@ Definition bidict_put (sid eio : pv) (bm : bimap) : Res bimap :=
             else Ok (aset sid eio bm)
   end.
 
-(* BaseManager.basic_enter_room(sid, namespace, room)  (eio_sid=None) *)
+(* BaseManager.basic_enter_room(sid, namespace, room)  (eio_sid=None):
+   the transport id is looked up BEFORE the room is created *)
 Definition basic_enter_room (sid ns room : pv) : M unit :=
   hk ns >>
   m <~ getst ;;
   match aget ns (rooms m) with
   | None => raise ValueError
   | Some nr =>
-      hk room >>
-      let nr1 := match aget room nr with Some _ => nr | None => aset room [] nr end in
-      let m1 := set_rooms m (aset ns nr1 (rooms m)) in
-      putst m1 >>
-      match aget PNone nr1 with
+      match aget PNone nr with
       | None => raise KeyError
       | Some bm0 =>
           hk sid >>
           match aget sid bm0 with
           | None => raise KeyError
           | Some eio =>
+              hk room >>
+              let nr1 := match aget room nr with Some _ => nr | None => aset room [] nr end in
+              let m1 := set_rooms m (aset ns nr1 (rooms m)) in
+              putst m1 >>
               let bm := match aget room nr1 with Some b => b | None => [] end in
               bm' <~ lift (bidict_put sid eio bm) ;;
               putst (set_rooms m1 (aset ns (aset room bm' nr1) (rooms m1)))
@@ -414,6 +415,7 @@ Fixpoint trigger (fuel : nat) (own : pv) (sid id args : pv) : M unit :=
                          hk id >>
                          match aget id d with
                          | None => raise KeyError
+                         | Some (Counter _) => raise KeyError     (* not callable: key 0 holds the id generator *)
                          | Some s => putst (set_cbs m (aset sid (adel id d) (cbs m))) >> ret (Some s)
                          end
                      end)
@@ -426,7 +428,7 @@ Fixpoint trigger (fuel : nat) (own : pv) (sid id args : pv) : M unit :=
       | Some s =>
           l <~ lift (py_star args) ;;                 (* callback( * data) *)
           match s with
-          | Counter _ => raise TypeError              (* 'itertools.count' object is not callable *)
+          | Counter _ => raise TypeError              (* unreachable: a non-callable entry is never returned *)
           | CbApp n => say (ECallback n l) >> fault
           | CbRemote h a b c =>                        (* _return_callback(h, a, b, c, star l) *)
               if py_eq h own then trigger f own a c (PTuple l)
@@ -666,7 +668,8 @@ Inductive badclass :=
 | BForeignCallback        (* callback addressed to another host *)
 | BCallbackMissingField   (* callback for this host without sid / id / args *)
 | BCallbackUnknown        (* callback for this host, no such sid or id (or unhashable ones) *)
-| BCallbackCounter        (* callback for this host whose id hits slot 0, the id counter: never issued as an id *)
+| BCallbackCounter        (* callback for this host whose id hits slot 0, the id generator: never issued as an id;
+                             ineffective since the fix of trigger_callback (only callables are callbacks) *)
 | BEmitMalformed          (* emit without event / data, or with a callback field that has no len() *)
 | BRoomOpMalformed        (* enter_room / leave_room whose sid or namespace cannot be looked up *)
 | BNotHere.               (* enter_room / leave_room for a client that is not connected to this host *)
